@@ -1,8 +1,10 @@
 package c07
 
 import (
+	"errors"
 	"fmt"
 
+	"github.com/nspcc-dev/neo-go/pkg/core"
 	"github.com/nspcc-dev/neo-go/pkg/core/transaction"
 	"github.com/nspcc-dev/neo-go/pkg/io"
 	"github.com/nspcc-dev/neo-go/pkg/util"
@@ -30,11 +32,24 @@ type PTx struct {
 	VUB        uint32   `json:"vub"`
 }
 
+// PConf puts a transaction B on chain that names one of the offered transactions (the victim) in one of its 1-3
+// Conflicts attributes (the other hashes belong to never-sent transactions of the same signers).
+type PConf struct {
+	Victim   int  `json:"victim"`             // index into Txs (modulo)
+	N        int  `json:"n"`                  // number of Conflicts attributes of B
+	Pos      int  `json:"pos"`                // which of them names the victim
+	Cosigner bool `json:"cosigner,omitempty"` // the common signer is a non-sender signer of the victim (when it has one)
+	BSig     int  `json:"b_sig"`              // signers of B (1-3)
+	Control  bool `json:"control,omitempty"`  // B has NO signer in common with the victim
+	Before   bool `json:"before,omitempty"`   // B is on chain before the pool is filled (otherwise its block arrives afterwards)
+}
+
 // PropCase is one proposal case.
 type PropCase struct {
 	Chain   ck.ChainCfg    `json:"chain"`
 	History []ck.BlockSpec `json:"history"`
 	Txs     []PTx          `json:"txs"`
+	Conf    *PConf         `json:"conf,omitempty"`
 	TimeD   uint32         `json:"time_d"`
 	Nonce   uint64         `json:"nonce"`
 	Primary int            `json:"primary"`
@@ -80,6 +95,18 @@ func genPropCase(t *rapid.T) PropCase {
 		}
 		c.Txs = append(c.Txs, p)
 	}
+	if rapid.IntRange(0, 2).Draw(t, "hasonchainconf") == 0 {
+		pc := &PConf{
+			Victim:   rapid.IntRange(0, n-1).Draw(t, "victim"),
+			N:        rapid.SampledFrom([]int{1, 2, 2, 3, 3, 3}).Draw(t, "conf_n"),
+			Cosigner: rapid.Bool().Draw(t, "conf_cosigner"),
+			BSig:     rapid.IntRange(1, 3).Draw(t, "b_sig"),
+			Control:  rapid.IntRange(0, 3).Draw(t, "conf_control") == 0,
+			Before:   rapid.Bool().Draw(t, "conf_before"),
+		}
+		pc.Pos = rapid.IntRange(0, pc.N-1).Draw(t, "conf_pos")
+		c.Conf = pc
+	}
 	c.TimeD = uint32(rapid.IntRange(1, 20000).Draw(t, "timed"))
 	c.Nonce = rapid.Uint64().Draw(t, "bnonce")
 	c.Primary = rapid.IntRange(0, 6).Draw(t, "primary")
@@ -115,8 +142,18 @@ func checkProp(c PropCase, o *vt.Obs, nonCanon, srihKnown bool) error {
 	// --- fill the pool of the proposing node; every transaction arrives as bytes (sendrawtransaction / CMDTX path) ---
 	hashes := make([]util.Uint256, len(c.Txs))
 	raws := make([][]byte, len(c.Txs))
+	builts := make([]*built, len(c.Txs))
+	specs := make([]TxSpec, len(c.Txs))
 	excluded := false
+	victim := -1
+	if c.Conf != nil && len(c.Txs) > 0 {
+		victim = mod(c.Conf.Victim, len(c.Txs))
+	}
 	for i, p := range c.Txs {
+		if i == victim {
+			p.Enc = nil           // the victim is an ordinary canonical transaction
+			p.VUB = max(p.VUB, 1) // still inside its validity window after B's block
+		}
 		spec := TxSpec{
 			Signers:    []SignerSpec{accountSigner(mod(p.Payer, 6))},
 			ScriptKind: "blob", ScriptSize: p.ScriptSize, SysFee: p.SysFee, Nonce: p.Nonce, VUB: p.VUB, ExtraFee: p.ExtraFee,
@@ -153,12 +190,14 @@ func checkProp(c PropCase, o *vt.Obs, nonCanon, srihKnown bool) error {
 				}
 			}
 		}
+		specs[i] = spec
 		if raws[i] == nil {
 			B, err := k.build(spec, m)
 			if err != nil {
 				return fmt.Errorf("tx %d: %v", i, err)
 			}
 			raws[i] = txBytes(B.tx)
+			builts[i] = B
 		}
 		tx, err := transaction.NewTransactionFromBytes(raws[i])
 		if err != nil {
@@ -168,6 +207,111 @@ func checkProp(c PropCase, o *vt.Obs, nonCanon, srihKnown bool) error {
 	}
 	if excluded {
 		o.Excluded()
+	}
+	// --- optional: a transaction naming the victim gets on chain (before or after the pool is filled) --------------
+	shared := false
+	onChainConflict := func() error {
+		pc := c.Conf
+		V := builts[victim]
+		n := min(max(pc.N, 1), 3)
+		pos := mod(pc.Pos, n)
+		nb := min(max(pc.BSig, 1), 3)
+		inVictim := func(a int) bool {
+			h := ck.Accounts[a].Hash
+			for _, r := range V.rs {
+				if r.hash == h {
+					return true
+				}
+			}
+			return false
+		}
+		var others []SignerSpec
+		for a := 0; a < 6; a++ {
+			if !inVictim(a) {
+				others = append(others, accountSigner(a))
+			}
+		}
+		var signers []SignerSpec
+		if pc.Control {
+			signers = others[:min(nb, 2)]
+			o.Label("onchain-conflict-control")
+		} else {
+			j := 0
+			if pc.Cosigner && len(V.rs) > 1 {
+				j = 1 + mod(pc.Victim, len(V.rs)-1)
+			}
+			sh := V.rs[j].spec
+			sh.Scope = 2
+			account := sh.Kind == "sig" || sh.Kind == "outsider"
+			if nb == 1 && !account {
+				nb = 2
+			}
+			switch nb {
+			case 1:
+				signers = []SignerSpec{sh}
+			case 2:
+				signers = []SignerSpec{others[0], sh}
+				if account && pc.Pos%2 == 1 {
+					signers = []SignerSpec{sh, others[0]}
+				}
+			default:
+				signers = []SignerSpec{others[0], sh, others[1]}
+			}
+			shared = true
+			if j == 0 {
+				o.Label("onchain-conflict-shared-sender")
+			} else {
+				o.Label("onchain-conflict-shared-cosigner")
+			}
+		}
+		var attrs []transaction.Attribute
+		for a := 0; a < n; a++ {
+			hh := hashes[victim]
+			if a != pos {
+				ds := specs[victim]
+				ds.Nonce += 7919 * uint32(a+1)
+				D, err := k.build(ds, mods{})
+				if err != nil {
+					return fmt.Errorf("decoy transaction: %v", err)
+				}
+				hh = D.tx.Hash()
+			}
+			attrs = append(attrs, transaction.Attribute{Type: transaction.ConflictsT, Value: &transaction.Conflicts{Hash: hh}})
+		}
+		B, err := e.execTx(signers, attrs, []byte{0x40})
+		if err != nil {
+			return fmt.Errorf("conflicting transaction: %v", err)
+		}
+		if err := e.rawBlock(B); err != nil { // arrives inside a block, never through this node's pool
+			return fmt.Errorf("block with the conflicting transaction: %v", err)
+		}
+		o.Labelf("onchain-conflict-attrs-%d", n)
+		if pos > 0 {
+			o.Label("onchain-conflict-victim-named-by-later-attr")
+		}
+		what := fmt.Sprintf("victim (tx %d, %s) is named by Conflicts attribute %d of %d of an on-chain transaction with %d signers", victim, describe(V), pos, n, len(B.Signers))
+		vtx, _ := transaction.NewTransactionFromBytes(raws[victim])
+		verr := bc.VerifyTx(vtx)
+		if shared {
+			if verr == nil {
+				return fmt.Errorf("%s, one of them its own signer: VerifyTx accepts it, must be rejected", what)
+			}
+			if !errors.Is(verr, core.ErrHasConflicts) {
+				return fmt.Errorf("%s, one of them its own signer: rejected with an error of an unexpected class: %v", what, verr)
+			}
+			if bc.GetMemPool().ContainsKey(hashes[victim]) {
+				return fmt.Errorf("%s, one of them its own signer: still in the memory pool after the block", what)
+			}
+		} else if verr != nil {
+			return fmt.Errorf("%s, NONE of them its signer: VerifyTx rejects it, must be accepted: %v", what, verr)
+		}
+		return nil
+	}
+	if victim >= 0 && c.Conf.Before {
+		o.Label("onchain-conflict-before-pooling")
+		if err := onChainConflict(); err != nil {
+			return err
+		}
 	}
 	accepted, rejected := 0, 0
 	offer := func(i int) {
@@ -192,6 +336,15 @@ func checkProp(c PropCase, o *vt.Obs, nonCanon, srihKnown bool) error {
 	if rejected > 0 {
 		o.Label("some-offers-rejected")
 	}
+	if victim >= 0 && !c.Conf.Before {
+		if bc.GetMemPool().ContainsKey(hashes[victim]) {
+			o.Label("onchain-conflict-victim-was-pooled")
+		}
+		o.Label("onchain-conflict-after-pooling")
+		if err := onChainConflict(); err != nil {
+			return err
+		}
+	}
 
 	// --- take the pool content the way consensus does ---------------------------------------------------------------
 	cfg := bc.GetConfig().ProtocolConfiguration
@@ -213,6 +366,13 @@ func checkProp(c PropCase, o *vt.Obs, nonCanon, srihKnown bool) error {
 	for i := range sel {
 		if sel[i] != verified[i] {
 			return fmt.Errorf("ApplyPolicyToTxSet: element %d is not element %d of the pool order", i, i)
+		}
+	}
+	if shared {
+		for i, tx := range verified {
+			if tx.Hash() == hashes[victim] {
+				return fmt.Errorf("pool entry %d is the victim named by an on-chain transaction of one of its signers (selected for the proposal: %v)", i, i < len(sel))
+			}
 		}
 	}
 	if len(sel) > int(cfg.MaxTransactionsPerBlock) {
